@@ -346,9 +346,7 @@ func genConcHist(c *gal.Ctx, mainAlg uint16, veteran bool) []cmdT {
 
 func objName(i int) string { return string(rune('A' + i)) }
 
-var concT, parT time.Duration
 func runConcCase(c *gal.Ctx, vets []*tpm.TPM) {
-	t0 := time.Now(); defer func() { concT += time.Since(t0) }()
 	k := 2
 	if c.Rng.Intn(3) == 0 {
 		k = 3
@@ -455,20 +453,21 @@ func runConcCase(c *gal.Ctx, vets []*tpm.TPM) {
 		input := descr(s.decisions[:f.nDecisions])
 		input["failing_object"], input["failing_step"] = objName(f.actor), f.step
 		// closed form: NEW objects, only the commands begun so far, the same decisions
-		s2 := &scheduler{replay: append([]int{}, s.decisions[:f.nDecisions]...)}
-		runs2 := make([]*objRun, k)
-		for i := range runs2 {
-			runs2[i] = newObjRun(tpm.NewTPM(), hists[i][:f.started[i]], fulls[i])
+		trunc := make([][]cmdT, k)
+		for i := range trunc {
+			trunc[i] = hists[i][:f.started[i]]
 		}
-		if execSched(s2, runs2) && s2.fail != nil {
-			g := s2.fail
-			what = fmt.Sprintf("object %s after its command #%d %s: %s", objName(g.actor), g.step, hists[g.actor][g.step], g.what)
-			objsJ := make([]interface{}, k)
-			for i := range objsJ {
-				objsJ[i] = map[string]interface{}{"name": objName(i), "object": "new TPM", "history": histStrings(hists[i][:g.started[i]])}
+		alone := append(dirtyPrefix(), hists[f.actor][:f.step+1]...)
+		if j, w := closedRepro(alone); j >= 0 {
+			// the failing object alone, sequentially: the other objects do not matter
+			what = fmt.Sprintf("after command #%d %s: %s", j, alone[j], w)
+			input = map[string]interface{}{"object": "new TPM", "history": histStrings(alone[:j+1]), "failing_step": j}
+		} else if w2, in2 := closedSched(trunc, s.decisions[:f.nDecisions]); in2 != nil {
+			what, input = w2, in2
+			// look for the same kind of failure in the smallest scope: two new objects, startup + one extend each
+			if w3, in3 := smallScope(c, hists[f.actor][f.step]); in3 != nil {
+				what, input = w3, in3
 			}
-			input = map[string]interface{}{"objects": objsJ, "schedule": rle(s2.decisions[:g.nDecisions]), "schedule_legend": scheduleLegend,
-				"failing_object": objName(g.actor), "failing_step": g.step}
 		} else {
 			input["note"] = "not reproduced on new objects with the same schedule: depends on objects / pooled hashers left by earlier cases (replay by seed)"
 		}
@@ -479,6 +478,66 @@ func runConcCase(c *gal.Ctx, vets []*tpm.TPM) {
 			c.Count("cmd:" + cmdNames[cm.kind])
 		}
 	}
+}
+
+// closedSched runs the histories on NEW objects under the given decisions; if
+// the oracle rejects a step, returns what and the closed input (objects,
+// histories cut to the commands begun, schedule cut to the failure).
+func closedSched(hists [][]cmdT, decisions []int) (string, map[string]interface{}) {
+	s := &scheduler{replay: append([]int{}, decisions...)}
+	runs := make([]*objRun, len(hists))
+	for i := range runs {
+		runs[i] = newObjRun(tpm.NewTPM(), hists[i], make([]bool, len(hists[i])))
+	}
+	if !execSched(s, runs) || s.fail == nil {
+		return "", nil
+	}
+	g := s.fail
+	objs := make([]interface{}, len(hists))
+	for i := range objs {
+		objs[i] = map[string]interface{}{"name": objName(i), "object": "new TPM", "history": histStrings(hists[i][:g.started[i]])}
+	}
+	return fmt.Sprintf("object %s after its command #%d %s: %s", objName(g.actor), g.step, hists[g.actor][g.step], g.what),
+		map[string]interface{}{"objects": objs, "schedule": rle(s.decisions[:g.nDecisions]), "schedule_legend": scheduleLegend,
+			"failing_object": objName(g.actor), "failing_step": g.step}
+}
+
+var smallScopeDone bool
+
+// smallScope is run once per harness run, after a scheduled case failed at
+// command cm: it searches schedules of the smallest scenario of that shape --
+// two new objects, each started and given one command like cm -- and returns
+// the first one the oracle rejects (confirmed by a second run from the recorded
+// decisions).
+func smallScope(c *gal.Ctx, cm cmdT) (string, map[string]interface{}) {
+	if smallScopeDone || cm.kind != kExtend {
+		return "", nil
+	}
+	smallScopeDone = true
+	other := cm
+	other.d = make([]byte, len(cm.d))
+	for i := range other.d {
+		other.d[i] = cm.d[i] ^ 0xFF
+	}
+	if len(other.d) == 0 {
+		other.d = []byte{0xA5}
+	}
+	// different localities and digests: the two objects never hold equal values
+	hists := [][]cmdT{{{kind: kStartup, l: 0xA1}, other}, {{kind: kStartup, l: 0xB2}, cm}}
+	for try := 0; try < 400; try++ {
+		s := &scheduler{rng: rand.New(rand.NewSource(c.Rng.Int63())), num: 1, den: 2 + try%3}
+		runs := make([]*objRun, 2)
+		for i := range runs {
+			runs[i] = newObjRun(tpm.NewTPM(), hists[i], make([]bool, 2))
+		}
+		if !execSched(s, runs) || s.fail == nil {
+			continue
+		}
+		if what, input := closedSched(hists, s.decisions[:s.fail.nDecisions]); input != nil {
+			return what, input
+		}
+	}
+	return "", nil
 }
 
 // ---------------------------------------------------------------- really parallel case
